@@ -249,7 +249,7 @@ def build(repo):
             post_match="    let step_result: Result<(), Error> = Ok(step_result);",
             arm_rewrites={
                 # R3: reference patterns
-                "script::Instruction::Op(opcodes::all::OP_VERIFY)": [sub("R3", r"@\s*&Token::", "@ Token::")],
+                "script::Instruction::Op(opcodes::all::OP_VERIFY)": [sub("R3", r"@\s*&Token::", "@ Token::", required=False)],
                 # R7: std slice -> array conversion
                 "script::Instruction::PushBytes(bytes)": [lit("R7", "bytes.as_bytes().try_into()", "slice_try_into_array(bytes.as_bytes())")],
             })
